@@ -295,7 +295,7 @@ pub fn batch_atomicity(d: &Driver, b: usize, obs: &Obs) -> Option<String> {
         if lens.len() < 2 {
             continue;
         }
-        let first = last + 1 - lens.len() as u64;
+        let first = last.wrapping_add(1).wrapping_sub(lens.len() as u64);
         let name = &d.names[*q];
         // a completed delete_queue after the batch ended its incarnation: nothing of it may be
         // expected, and equal-looking records (empty payloads) of a later incarnation are not its records
@@ -306,7 +306,7 @@ pub fn batch_atomicity(d: &Driver, b: usize, obs: &Obs) -> Option<String> {
         let Some(oq) = obs.queues.get(name) else { continue };
         // only self-identifying payloads (>= 16 bytes: they carry the op id) are attributable to this batch;
         // shorter ones can be byte-equal to records of another incarnation at the same position
-        let recs: Vec<Rec> = lens.iter().enumerate().filter(|(_, &l)| l >= 16).map(|(k, &l)| Rec::of(first + k as u64, &crate::model::payload(*uid, k as u32, l as usize))).collect();
+        let recs: Vec<Rec> = lens.iter().enumerate().filter(|(_, &l)| l >= 16).map(|(k, &l)| Rec::of(first.wrapping_add(k as u64), &crate::model::payload(*uid, k as u32, l as usize))).collect();
         if recs.len() < 2 {
             continue;
         }
@@ -478,8 +478,8 @@ fn finish(d: &Driver, case: &Case, b: usize, w: World, obs: Obs, m: Matched, con
     hw.retain(|name, _| obs.queues.contains_key(name));
     for (name, h) in &hw {
         if let Some(oq) = obs.queues.get(name) {
-            let next = oq.last_position.map(|p| p + 1).unwrap_or(0);
-            if next <= *h {
+            let next = oq.last_position.map(|p| p.saturating_add(1)).unwrap_or(0);
+            if next < h.saturating_add(1) {
                 out.failures.push(fail("C04", "next-regressed-after-crash", b, format!("{where_}: queue recovered with next position {} although position {} had been appended or truncated-to", next, h)));
             }
         }
@@ -568,7 +568,7 @@ pub fn continuation_filling_the_gap(d: &Driver, b: usize, image: &Image) -> Opti
 fn check_c04_cont(op: &Op, o: &Outcome, cd: &Driver, hw: &BTreeMap<String, u64>, failures: &mut Vec<Failure>, b: usize, where_: &str) {
     if let (Op::Append { q, lens, .. }, Outcome::Appended { last: Some(last), .. }) = (op, o) {
         if let Some(h) = hw.get(&cd.names[*q]) {
-            let first = last + 1 - (lens.len() as u64).min(last + 1);
+            let first = last.saturating_add(1) - (lens.len() as u64).min(last.saturating_add(1));
             // only meaningful while the queue is still the incarnation that was alive at the crash
             let same_incarnation = !cd.steps.iter().any(|s| matches!(&s.op, Op::Delete { q: dq } if dq == q) && !s.outcome.is_err());
             if same_incarnation && first <= *h {
@@ -844,9 +844,9 @@ pub fn persisted_superset(d: &Driver, p: Option<usize>, b: usize, obs: &Obs) -> 
         for s in d.steps.iter().take(hi + 1).skip(start) {
             if let (Op::Append { q: aq, lens, uid, .. }, Outcome::Appended { last: Some(last), .. }) = (&s.op, &s.expected) {
                 if *aq == q {
-                    let first = last + 1 - lens.len() as u64;
+                    let first = last.wrapping_add(1).wrapping_sub(lens.len() as u64);
                     for (k, &l) in lens.iter().enumerate() {
-                        allowed.insert(Rec::of(first + k as u64, &crate::model::payload(*uid, k as u32, l as usize)));
+                        allowed.insert(Rec::of(first.wrapping_add(k as u64), &crate::model::payload(*uid, k as u32, l as usize)));
                     }
                 }
             }
